@@ -288,6 +288,42 @@ def json_stack(st):
     return tuple(cv(v) for v in st)
 
 
+def work_int_edges(task):
+    """No undefined arithmetic: every ordered pair of the values at which 64-bit arithmetic wraps, through every
+    arithmetic and comparison word, written as literals (held unsigned when non-negative) and as results of
+    arithmetic (held signed) -- under UBSan."""
+    lo, hi = task
+    ev = Evidence()
+    drv = Driver()
+    I64_MIN = -(1 << 63)
+    vals = [I64_MIN, I64_MIN + 1, -(1 << 32), -2, -1, 0, 1, 2, (1 << 32), (1 << 63) - 1, 1 << 63, (1 << 64) - 2, (1 << 64) - 1]
+    forms = []
+    for v in vals:
+        forms.append(str(v))
+        if I64_MIN <= v - 1 and v <= (1 << 63) - 1:
+            forms.append("%d 1 add" % (v - 1))          # the same number as the result of signed arithmetic
+    words = ["add", "sub", "mul", "div", "mod", "?lt", "?eq", "?gt"]
+    cases = [(a, b, w) for a in forms for b in forms for w in words][lo:hi]
+    try:
+        for a, b, w in cases:
+            q = "%s %s %s" % (a, b, w)
+            try:
+                drv.run(q, limit=5)
+                ev.case(key=("int-edge", q), nontrivial=True)
+                ev.label("int-edge")
+            except DriverCrash as e:
+                ev.violations.append(crash_record("int-edge", q, e.report))
+            except DriverTimeout:
+                ev.inconc("watchdog")
+        rc, txt = drv.close()
+        if rc not in (0,):
+            ev.violations.append({"property": PID, "kind": "exit", "reason": "driver exit status %s at orderly shutdown: %s" % (rc, txt[-3000:]),
+                                  "signature": "C13:exit:" + first_repo_frame(txt)})
+    finally:
+        drv.kill()
+    return ev
+
+
 def work_corpus(task):
     lo, hi = task
     ev = Evidence()
@@ -539,6 +575,7 @@ def main(tier, seed):
     ncl = 3000 if tier == "quick" else 40000
     ev.merge(run_pool(work_closures, [(seed, s, min(100, ncl - s)) for s in range(0, ncl, 100)]))
     ev.extra["closure_programs"] = ncl
+    ev.merge(run_pool(work_int_edges, [(lo_, lo_ + 400) for lo_ in range(0, 23 * 23 * 8, 400)]))
     nbt = 2000 if tier == "quick" else 40000
     ev.merge(run_pool(work_backtick, [(seed, s, min(100, nbt - s)) for s in range(0, nbt, 100)]))
     nq = len(seeds_from_tests())
@@ -580,7 +617,7 @@ def main(tier, seed):
     return finish(PID, tier, seed, ev, RULE, t0,
                   assumptions=["uninstrumented libdw/libelf internals are trusted",
                                "dynamic detection on executed paths only"],
-                  health={"fuzzer ran": feats > 0, "backquoted captures with >= 4 backquotes": ev.labels.get("backtick-capture:4+", 0) > 500, "nested closures ran": ev.labels.get("closure-nest", 0) > 2000 and ev.labels.get("closure-nest:rejected", 0) < 100, "leak checks ran": ev.labels.get("leak-checks", 0) > 0,
+                  health={"fuzzer ran": feats > 0, "integer edges under UBSan": ev.labels.get("int-edge", 0) > 3000, "backquoted captures with >= 4 backquotes": ev.labels.get("backtick-capture:4+", 0) > 500, "nested closures ran": ev.labels.get("closure-nest", 0) > 2000 and ev.labels.get("closure-nest:rejected", 0) < 100, "leak checks ran": ev.labels.get("leak-checks", 0) > 0,
                           "non-empty result sets were abandoned": ev.labels.get("abandoned-non-empty", 0) > 0})
 
 
